@@ -1,0 +1,255 @@
+//go:build verif
+
+package quickfix
+
+// Verification seam (build tag "verif" only). Thin exported shim over unexported
+// identifiers so that an external harness can drive exactly the handlers the
+// run loop dispatches to. Contains no logic of its own.
+
+import (
+	"bytes"
+	"fmt"
+	"io"
+	"sort"
+	"time"
+
+	"github.com/quickfixgo/quickfix/datadictionary"
+	"github.com/quickfixgo/quickfix/internal"
+)
+
+// Session events, mirroring internal.Event.
+const (
+	VerifPeerTimeout   = int(internal.PeerTimeout)
+	VerifNeedHeartbeat = int(internal.NeedHeartbeat)
+	VerifLogonTimeout  = int(internal.LogonTimeout)
+	VerifLogoutTimeout = int(internal.LogoutTimeout)
+)
+
+// VerifFixIn is the element type of the inbound channel.
+type VerifFixIn = fixIn
+
+// VerifMkIn wraps bytes as the read loop does.
+func VerifMkIn(b []byte, t time.Time) VerifFixIn {
+	return fixIn{bytes: bytes.NewBuffer(b), receiveTime: t}
+}
+
+// VerifSession wraps an unregistered session.
+type VerifSession struct {
+	s *session
+}
+
+// VerifNewSession builds a session through the real factory path, without registry or network.
+func VerifNewSession(initiator bool, id SessionID, sf MessageStoreFactory, settings *SessionSettings, lf LogFactory, app Application) (*VerifSession, error) {
+	s, err := sessionFactory{BuildInitiators: initiator}.newSession(id, sf, settings, lf, app)
+	if err != nil {
+		return nil, err
+	}
+	return &VerifSession{s: s}, nil
+}
+
+// BufferSessionEvents replaces the timer event channel by a buffered one.
+func (v *VerifSession) BufferSessionEvents(n int) { v.s.sessionEvent = make(chan internal.Event, n) }
+
+// SetTimeouts overrides the logon/logout timeouts.
+func (v *VerifSession) SetTimeouts(logon, logout time.Duration) {
+	v.s.LogonTimeout = logon
+	v.s.LogoutTimeout = logout
+}
+
+// SetVirtualTimers installs timers that report arming instead of running.
+func (v *VerifSession) SetVirtualTimers(state, peer func(time.Duration)) {
+	v.s.stateTimer = internal.NewVerifEventTimer(state)
+	v.s.peerTimer = internal.NewVerifEventTimer(peer)
+}
+
+// ObserveTimers makes run()'s real timers report each arming (call after Run started them).
+func (v *VerifSession) ObserveTimers(state, peer func(time.Duration)) {
+	v.s.stateTimer.VerifObserve(state)
+	v.s.peerTimer.VerifObserve(peer)
+}
+
+func (v *VerifSession) Store() MessageStore          { return v.s.store }
+func (v *VerifSession) SetStore(st MessageStore)     { v.s.store = st }
+func (v *VerifSession) SetApplication(a Application) { v.s.application = a }
+func (v *VerifSession) ID() SessionID                { return v.s.sessionID }
+func (v *VerifSession) HeartBtInt() time.Duration    { return v.s.HeartBtInt }
+func (v *VerifSession) MaxLatency() time.Duration    { return v.s.MaxLatency }
+func (v *VerifSession) SessionTime() *VerifTimeRange { return &VerifTimeRange{v.s.SessionTime} }
+func (v *VerifSession) TransportDD() *datadictionary.DataDictionary {
+	return v.s.transportDataDictionary
+}
+func (v *VerifSession) AppDD() *datadictionary.DataDictionary { return v.s.appDataDictionary }
+func (v *VerifSession) GetValidator() Validator               { return v.s.Validator }
+
+// The handlers dispatched by run().
+func (v *VerifSession) Start() { v.s.Start(v.s) }
+func (v *VerifSession) Connect(out chan<- []byte, in <-chan VerifFixIn) error {
+	rep := make(chan error, 1)
+	v.s.onAdmin(connect{messageOut: out, messageIn: in, err: rep})
+	return <-rep
+}
+func (v *VerifSession) Incoming(in VerifFixIn)       { v.s.Incoming(v.s, in) }
+func (v *VerifSession) Timeout(e int)                { v.s.Timeout(v.s, internal.Event(e)) }
+func (v *VerifSession) SendAppMessages()             { v.s.SendAppMessages(v.s) }
+func (v *VerifSession) Disconnected()                { v.s.Disconnected(v.s) }
+func (v *VerifSession) StopReq()                     { v.s.onAdmin(stopReq{}) }
+func (v *VerifSession) CheckSessionTime(t time.Time) { v.s.CheckSessionTime(v.s, t) }
+func (v *VerifSession) CheckResetTime(t time.Time)   { v.s.CheckResetTime(v.s, t) }
+
+// Application-side entry point (what Send/SendToTarget call).
+func (v *VerifSession) QueueForSend(m *Message) error { return v.s.queueForSend(m) }
+
+// The real loop and its asynchronous entry points.
+func (v *VerifSession) Run() { v.s.run() }
+func (v *VerifSession) ConnectAsync(in <-chan VerifFixIn, out chan<- []byte) error {
+	return v.s.connect(in, out)
+}
+func (v *VerifSession) StopAsync() { v.s.stop() }
+
+// TakeMessageEvent consumes the flush token if present.
+func (v *VerifSession) TakeMessageEvent() bool {
+	select {
+	case <-v.s.messageEvent:
+		return true
+	default:
+		return false
+	}
+}
+
+// TakeSessionEvents drains buffered timer events.
+func (v *VerifSession) TakeSessionEvents() (out []int) {
+	for {
+		select {
+		case e := <-v.s.sessionEvent:
+			out = append(out, int(e))
+		default:
+			return
+		}
+	}
+}
+func (v *VerifSession) MessageEventChan() chan bool { return v.s.messageEvent }
+
+// VerifSnapshot is a read-only view of the session state.
+type VerifSnapshot struct {
+	State        string
+	Stash        []int
+	StashTypes   []string
+	ResendEnd    int
+	CurResendEnd int
+	SentReset    bool
+	ToSend       int
+	PendingStop  bool
+	Stopped      bool
+	OutNil       bool
+	InNil        bool
+	LoggedOn     bool
+	Connected    bool
+	SessionTime  bool
+	MsgEvent     int
+	HeartBtInt   time.Duration
+}
+
+func verifStateString(st sessionState) string {
+	switch t := st.(type) {
+	case pendingTimeout:
+		return "pending{" + verifStateString(t.sessionState) + "}"
+	case resendState:
+		return "resend"
+	case inSession:
+		return "inSession"
+	case logonState:
+		return "logon"
+	case logoutState:
+		return "logout"
+	case notSessionTime:
+		return "notSessionTime"
+	case latentState:
+		return "latent"
+	case nil:
+		return "nil"
+	default:
+		return fmt.Sprintf("%T", st)
+	}
+}
+
+func verifResend(st sessionState) (resendState, bool) {
+	switch t := st.(type) {
+	case pendingTimeout:
+		return verifResend(t.sessionState)
+	case resendState:
+		return t, true
+	}
+	return resendState{}, false
+}
+
+// Snapshot reads the state.
+func (v *VerifSession) Snapshot() VerifSnapshot {
+	s := v.s
+	sn := VerifSnapshot{
+		State:       verifStateString(s.State),
+		SentReset:   s.sentReset,
+		ToSend:      len(s.toSend),
+		PendingStop: s.pendingStop,
+		Stopped:     s.stopped,
+		OutNil:      s.messageOut == nil,
+		InNil:       s.messageIn == nil,
+		MsgEvent:    len(s.messageEvent),
+		HeartBtInt:  s.HeartBtInt,
+	}
+	if s.State != nil {
+		sn.LoggedOn = s.State.IsLoggedOn()
+		sn.Connected = s.State.IsConnected()
+		sn.SessionTime = s.State.IsSessionTime()
+	}
+	if rs, ok := verifResend(s.State); ok {
+		sn.ResendEnd = rs.resendRangeEnd
+		sn.CurResendEnd = rs.currentResendRangeEnd
+		for k := range rs.messageStash {
+			sn.Stash = append(sn.Stash, k)
+		}
+		sort.Ints(sn.Stash)
+		for _, k := range sn.Stash {
+			mt, _ := rs.messageStash[k].Header.GetString(tagMsgType)
+			sn.StashTypes = append(sn.StashTypes, mt)
+		}
+	}
+	return sn
+}
+
+// Message internals.
+func VerifBuild(m *Message) []byte            { return m.build() }
+func VerifWireFields(m *Message) []TagValue   { return m.fields }
+func VerifBodyBytes(m *Message) []byte        { return m.bodyBytes }
+func VerifTagValue(tv TagValue) (Tag, []byte) { return tv.tag, tv.value }
+func VerifTagValueBytes(tv TagValue) []byte   { return tv.bytes }
+func VerifReverseRoute(m *Message) *Message   { return m.reverseRoute() }
+
+// VerifParser wraps the stream parser.
+type VerifParser struct{ p *parser }
+
+func VerifNewParser(r io.Reader) *VerifParser { return &VerifParser{newParser(r)} }
+func (p *VerifParser) ReadMessage() (*bytes.Buffer, error) {
+	return p.p.ReadMessage()
+}
+
+// Connection loops.
+func VerifWriteLoop(w io.Writer, out chan []byte, log Log) { writeLoop(w, out, log) }
+func VerifReadLoop(r io.Reader, in chan VerifFixIn, log Log) {
+	readLoop(newParser(r), in, log)
+}
+
+// VerifTimeRange wraps internal.TimeRange.
+type VerifTimeRange struct{ r *internal.TimeRange }
+
+func (t *VerifTimeRange) IsNil() bool                       { return t.r == nil }
+func (t *VerifTimeRange) IsInRange(x time.Time) bool        { return t.r.IsInRange(x) }
+func (t *VerifTimeRange) IsInSameRange(a, b time.Time) bool { return t.r.IsInSameRange(a, b) }
+
+func VerifDailyRange(sh, sm, ss, eh, em, es int, days []time.Weekday, loc *time.Location) (*VerifTimeRange, error) {
+	r, err := internal.NewTimeRangeInLocation(internal.NewTimeOfDay(sh, sm, ss), internal.NewTimeOfDay(eh, em, es), days, loc)
+	return &VerifTimeRange{r}, err
+}
+func VerifWeekRange(sh, sm, ss, eh, em, es int, sd, ed time.Weekday, loc *time.Location) (*VerifTimeRange, error) {
+	r, err := internal.NewWeekRangeInLocation(internal.NewTimeOfDay(sh, sm, ss), internal.NewTimeOfDay(eh, em, es), sd, ed, loc)
+	return &VerifTimeRange{r}, err
+}
